@@ -41,11 +41,11 @@ ASSUMPTIONS = ["X25519, HMAC and HKDF in ipv8_rust_tunnels are trusted",
                "use; that is a broken circuit, not a key compromise, and is not flagged (the statement only forbids giving "
                "anyone else accepted keys)"]
 REACH = ["hop_appended_honest", "keys_equal_checked", "retry_happened", "answer_ignored_by_originator", "dup_answer", "fault:flip_key",
-         "fault:flip_auth", "fault:flip_ident", "fault:flip_cid", "fault:flip_cand", "fault:swap_ident", "fault:swap_cid",
+         "fault:flip_auth", "fault:flip_ident", "fault:flip_cid", "fault:flip_cand", "fault:swap_ident", "fault:swap_cid", "fault:swap_cid_exit",
          "fault:replay_old", "fault:subst_key", "crafted_answer_rejected", "subst_accepted_but_underivable", "hops:3"]
 
-KINDS = ["flip_key", "flip_auth", "flip_ident", "flip_cid", "flip_cand", "swap_ident", "swap_cid", "replay_old", "subst_key",
-         "dup_answer"]
+KINDS = ["flip_key", "flip_auth", "flip_ident", "flip_cid", "flip_cand", "swap_ident", "swap_cid", "swap_cid_exit", "replay_old",
+         "subst_key", "dup_answer"]
 
 
 def cases(tier: str, base_seed: int):  # noqa: ANN201
@@ -59,6 +59,12 @@ def cases(tier: str, base_seed: int):  # noqa: ANN201
                 n += 1
                 yield {"seed": base_seed + n, "knobs": {}, "hops": hops, "nodes": 5, "circuits": 3, "nht": 3, "who": who,
                        "faults": [{"kind": kind, "nth": k, "bit": (7 * k + 3) % 256} for k in range(0, 6)]}
+                if hops > 1:
+                    # the same manipulation applied only to later answers, when other circuits are already established
+                    n += 1
+                    yield {"seed": base_seed + n, "knobs": {}, "hops": hops, "nodes": 5, "circuits": 6, "nht": 3, "who": who,
+                           "stagger": 1.5,
+                           "faults": [{"kind": kind, "nth": k, "bit": (5 * k + 1) % 256} for k in range(3, 14)]}
     for i in itertools.count():
         seed = base_seed + 1000 + i
         rng = random.Random(f"c08/{seed}")
@@ -74,6 +80,14 @@ def cases(tier: str, base_seed: int):  # noqa: ANN201
         yield {"seed": seed, "knobs": knobs, "hops": rng.choice([1, 2, 2, 3, 3]), "nodes": rng.choice([4, 5, 6]),
                "circuits": rng.choice([1, 2, 4]), "nht": rng.choice([1, 2, 5, 10]),
                "who": rng.choice(["node", "wire"]) if faults else None, "faults": faults}
+
+
+def _old_terminating_ids(rcv, not_this: int, world) -> list:  # noqa: ANN001
+    """Ids of hops that END at ``rcv`` and were established a while ago (not the half-built hop of the handshake in progress)."""
+    now = world.wall_time()
+    out = [cid for cid, es in rcv.ov.exit_sockets.items() if cid != not_this and now - es.creation_time > 1.0]
+    out += [cid for cid, ci in rcv.ov.circuits.items() if cid != not_this and now - ci.creation_time > 1.0]
+    return sorted(out)
 
 
 def kbytes(k) -> tuple:  # noqa: ANN001
@@ -102,6 +116,7 @@ def execute(case: dict) -> dict:  # noqa: C901, PLR0915
     craft_now: list = [None]
     selections: dict = {}       # (originator node, circuit id) -> last selected public key
     appended: list = []         # events
+    verified_routes: list = []  # (originator, circuit, hop index) whose routed entry held the originator's keys at append time
     snapshots: dict = {}        # id(circuit) -> list of (peer key, key bytes) of hops so far
     answers_sent = {"n": 0}
     adv_secrets: list = []      # (ephemeral private key, originator dh public part) known to the adversary
@@ -141,7 +156,15 @@ def execute(case: dict) -> dict:  # noqa: C901, PLR0915
             if node is None:
                 return None, None, "selected peer is no known node"
             if j == upto:
-                e = node.ov.exit_sockets.get(cid) or node.ov.relay_from_to.get(cid)
+                # mirror the data path: the crypto endpoint consults relay routes before exit sockets
+                if upto == len(circ.hops) - 1:
+                    if cid in node.ov.relay_from_to:
+                        return node, None, f"id {cid} is relayed onwards at {node.name} (a relay route shadows the hop's entry)"
+                    e = node.ov.exit_sockets.get(cid)
+                else:
+                    # an intermediate hop normally holds a relay route; after a corrupted candidate list the originator may have
+                    # "extended" by contacting another first hop directly, then this hop still holds its exit socket
+                    e = node.ov.relay_from_to.get(cid) or node.ov.exit_sockets.get(cid)
                 return node, e, None if e is not None else f"no entry for id {cid} at {node.name}"
             rel = node.ov.relay_from_to.get(cid)
             if rel is None:
@@ -207,6 +230,8 @@ def execute(case: dict) -> dict:  # noqa: C901, PLR0915
                 c.violate("manipulated_answer", f"accepted_hop_keys_not_held_by_selected_peer:{(kinds or ['later'])[0]}",
                           f"hop {idx + 1} of circuit {self.circuit_id} accepted (manipulations on this answer: {kinds}) but the "
                           f"selected peer {holder.name if holder else None} holds no entry with these session keys")
+            elif entry is not None and kbytes(entry.hop.keys) == kbytes(hop.keys):
+                verified_routes.append((onode, self, idx))     # a properly routed hop: it must stay that way
             return
         # (1) honest exchange
         world.probe("hop_appended_honest")
@@ -220,6 +245,7 @@ def execute(case: dict) -> dict:  # noqa: C901, PLR0915
                       f"circuit {self.circuit_id} hop {idx + 1}: originator's session keys differ from the keys in the entry that the "
                       f"route leads to at {node.name} (exit_sockets/relay id traced through the relays)")
         else:
+            verified_routes.append((onode, self, idx))
             world.probe("keys_equal_checked")
             c.nontrivial(f"ok/{hops}/{idx}/{case['nht']}/{case['knobs'].get('loss')}/{case['knobs'].get('dup')}/"
                          f"{case['knobs'].get('tail_p')}/{case['knobs'].get('lat_jit')}/{len(appended)}")
@@ -237,7 +263,11 @@ def execute(case: dict) -> dict:  # noqa: C901, PLR0915
                 return inner(target_addr, payload)
             k = answers_sent["n"]
             answers_sent["n"] += 1
-            todo = [f for f in faults if f["nth"] == k]
+            todo = [f for f in faults if f["nth"] == k and f["kind"] != "swap_cid_exit"]
+            rcv0 = tw.node_of_ip(target_addr[0])
+            if isinstance(payload, CreatedPayload) and rcv0 is not None and rcv0 is not tw.nodes[0]:
+                kr = answers_sent["relay"] = answers_sent.get("relay", -1) + 1
+                todo = [f for f in faults if f["kind"] == "swap_cid_exit" and f["nth"] == kr] or todo
             key = (type(payload).__name__, payload.circuit_id)
             prev = old_answers.get(key)
             old_answers[key] = (payload.identifier, payload.key, payload.auth, payload.candidates_enc)
@@ -273,8 +303,21 @@ def execute(case: dict) -> dict:  # noqa: C901, PLR0915
                     payload.identifier = others[bit % len(others)] if others else (payload.identifier + 1) % 65536
                 elif kind == "flip_cid":
                     payload.circuit_id ^= 1 << (bit % 32)
+                elif kind == "swap_cid_exit":
+                    ids = _old_terminating_ids(rcv0, payload.circuit_id, world)
+                    if not ids:
+                        craft_now[0] = None
+                        return inner(target_addr, payload)
+                    payload.circuit_id = ids[bit % len(ids)]
                 elif kind == "swap_cid":
-                    others = sorted(set(list(node.ov.exit_sockets) + list(node.ov.relay_from_to)) - {payload.circuit_id})
+                    # the id of another hop that is live at the RECEIVING node (readable in clear text on its links)
+                    rcv = tw.node_of_ip(target_addr[0])
+                    # (ids of hops that END at the receiver are the interesting ones: a plaintext cell under a relayed id is dropped)
+                    others = _old_terminating_ids(rcv, payload.circuit_id, world) if rcv is not None else []
+                    if not others and rcv is not None:
+                        others = sorted(set(rcv.ov.relay_from_to) - {payload.circuit_id})
+                    if not others:
+                        others = sorted(set(list(node.ov.exit_sockets) + list(node.ov.relay_from_to)) - {payload.circuit_id})
                     if others:
                         payload.circuit_id = others[bit % len(others)]
                     else:
@@ -329,7 +372,11 @@ def execute(case: dict) -> dict:  # noqa: C901, PLR0915
             return None
         k = wire_n["n"]
         wire_n["n"] += 1
-        todo = [f for f in faults if f["nth"] == k]
+        todo = [f for f in faults if f["nth"] == k and f["kind"] != "swap_cid_exit"]
+        rcv0 = tw.node_of_ip(pkt.dst[0])
+        if rcv0 is not None and rcv0 is not tw.nodes[0]:
+            kr = wire_n["relay"] = wire_n.get("relay", -1) + 1
+            todo = [f for f in faults if f["kind"] == "swap_cid_exit" and f["nth"] == kr] or todo
         try:
             (ident,) = struct.unpack_from(">H", msg, 1)
             (kl,) = struct.unpack_from(">H", msg, 3)
@@ -371,9 +418,23 @@ def execute(case: dict) -> dict:  # noqa: C901, PLR0915
             ident = others[bit % len(others)] if others else (ident + 1) % 65536
         elif kind == "flip_cid":
             ncid = cid ^ (1 << (bit % 32))
+        elif kind == "swap_cid_exit":
+            ids = _old_terminating_ids(rcv0, cid, world)
+            if not ids:
+                return None
+            ncid = ids[bit % len(ids)]
         elif kind == "swap_cid":
-            others = sorted(set(wire_old) - {cid})
+            rcv = tw.node_of_ip(pkt.dst[0])
+            others = _old_terminating_ids(rcv, cid, world) if rcv else []
+            if not others and rcv:
+                others = sorted(set(rcv.ov.relay_from_to) - {cid})
+            if not others:
+                others = sorted(set(wire_old) - {cid})
             ncid = others[bit % len(others)] if others else cid ^ 0x10
+            import os
+            if os.environ.get("C08_DEBUG"):
+                print("SWAP wire", pkt.src_node, "->", rcv.name if rcv else None, "cid", cid, "->", ncid, "cands", others,
+                      "exit@rcv", sorted(rcv.ov.exit_sockets) if rcv else None, "t=%.2f" % world.loop.time())
         elif kind == "replay_old":
             if prev is None:
                 return None
@@ -419,7 +480,7 @@ def execute(case: dict) -> dict:  # noqa: C901, PLR0915
         circs = []
         for _ in range(case["circuits"]):
             circs.append(o.call(o.ov.create_circuit, hops))
-            await asyncio.sleep(rng.choice([0.0, 0.05, 1.0]))
+            await asyncio.sleep(case.get("stagger") or rng.choice([0.0, 0.05, 1.0]))
         # let handshakes, retries and give-ups play out (circuit_timeout is 60 s)
         for _ in range(14):
             await asyncio.sleep(5.0)
@@ -434,6 +495,20 @@ def execute(case: dict) -> dict:  # noqa: C901, PLR0915
         if answers_at_o > len(appended):
             world.probe("answer_ignored_by_originator", answers_at_o - len(appended))
         st["ready"] = sum(1 for ci in circs if ci is not None and ci.state == "READY")
+        # established hops stay established: every hop whose routed entry matched at append time still matches, as long as the
+        # circuit is READY at its originator and every node on its path is alive
+        for onode_name, circ, idx in verified_routes:
+            onode_obj = next(x for x in tw.nodes if x.name == onode_name)
+            if circ.circuit_id not in onode_obj.ov.circuits or circ.state != "READY" or idx >= len(circ.hops):
+                continue
+            node, entry, why = trace(circ, idx)
+            import os
+            if os.environ.get("C08_DEBUG"):
+                print("RETRACE", circ.circuit_id, idx, circ.state, node.name if node else None, type(entry).__name__, why)
+            if entry is None or kbytes(entry.hop.keys) != kbytes(circ.hops[idx].keys):
+                c.violate("established_hops_immutable", "established_circuit_route_changed",
+                          f"hop {idx + 1} of circuit {circ.circuit_id}: its routed entry matched the originator's keys when it was "
+                          f"appended, now {'no entry is reachable (' + str(why) + ')' if entry is None else 'the entry holds other keys'}")
         # final immutability check
         for ci in circs:
             if ci is None:
